@@ -1,7 +1,9 @@
 (* C15 lemmas, part 2: the serial sum and the pool as a transition system.
-   For every schedule (availability masks), every partition into processes and every history the
-   answer of an evaluation is the sum of the analyses on that instance -- fully for the repaired
-   `results`, and for the pinned code as long as no earlier evaluation of the same pool raised. *)
+   For every schedule (availability masks), every partition into processes and every history of
+   evaluations, visualize calls and changes of n_cores, the answer of a call is the sum of the
+   analyses on that instance (or the exception of one of the raising analyses) -- for /repo as it
+   stands (`results` drains), and for the historical snapshot as long as no earlier call of the
+   same pool raised. *)
 From Coq Require Import ZArith List Bool Arith Lia.
 From PAFC15 Require Import Model.
 Import ListNotations.
@@ -30,9 +32,147 @@ Proof.
   remember ((n + d - 1) / d) as q. remember ((n + d - 1) mod d) as r. clear Heqq Heqr. nia.
 Qed.
 
+(* ---------- measures on the queues ---------- *)
+Definition rval (r : res) : Z := match r with RVal v => v | RExc _ => 0%Z end.
+Definition rexc (r : res) : bool := match r with RExc _ => true | RVal _ => false end.
+Definition qlen (qs : list (list res)) : nat := length (concat qs).
+Definition qsum (qs : list (list res)) : Z := fold_right Z.add 0%Z (map rval (concat qs)).
+Definition qexc (qs : list (list res)) : bool := existsb rexc (concat qs).
+Definition is_some {B} (o : option B) : bool := match o with Some _ => true | None => false end.
+
+Lemma qlen_cons q qs : qlen (q :: qs) = length q + qlen qs.
+Proof. unfold qlen. simpl. apply app_length. Qed.
+Lemma fold_add_app (a b : list Z) : fold_right Z.add 0%Z (a ++ b) = (fold_right Z.add 0 a + fold_right Z.add 0 b)%Z.
+Proof. induction a as [|x a IH]; simpl; [reflexivity|]. rewrite IH. lia. Qed.
+Lemma qsum_cons q qs : qsum (q :: qs) = (fold_right Z.add 0 (map rval q) + qsum qs)%Z.
+Proof. unfold qsum. simpl. rewrite map_app, fold_add_app. reflexivity. Qed.
+Lemma qexc_cons q qs : qexc (q :: qs) = existsb rexc q || qexc qs.
+Proof. unfold qexc. simpl. apply existsb_app. Qed.
+Lemma in_exc_true (k : nat) (l : list res) : In (RExc k) l -> existsb rexc l = true.
+Proof. intro H. apply existsb_exists. exists (RExc k). auto. Qed.
+Lemma qlen_zero (qs : list (list res)) : qlen qs = 0 -> concat qs = [].
+Proof. unfold qlen. intro H. apply length_zero_iff_nil. exact H. Qed.
+
+(* what one pass preserves *)
+Definition sweep_post (drain : bool) (qs : list (list res)) (acc : Z) (count : nat) (exc : option nat) (o : sweep_out) : Prop :=
+  match o with
+  | SCont qs' acc' count' exc' =>
+      length qs' = length qs /\ count' + qlen qs' = count + qlen qs /\ (acc' + qsum qs' = acc + qsum qs)%Z
+      /\ is_some exc' || qexc qs' = is_some exc || qexc qs /\ (drain = false -> exc' = exc) /\ count <= count'
+      /\ (forall k, exc' = Some k \/ In (RExc k) (concat qs') -> exc = Some k \/ In (RExc k) (concat qs))
+  | SRaise k qs' => drain = false /\ In (RExc k) (concat qs) /\ length qs' = length qs
+  end.
+
+Lemma cons_out_post drain q q' qs acc count exc acc1 count1 exc1 o :
+  sweep_post drain qs acc1 count1 exc1 o ->
+  length q = (count1 - count) + length q' -> count <= count1 ->
+  (fold_right Z.add 0 (map rval q) + acc = acc1 + fold_right Z.add 0 (map rval q'))%Z ->
+  is_some exc || existsb rexc q = is_some exc1 || existsb rexc q' -> (drain = false -> exc1 = exc) ->
+  (forall k, exc1 = Some k \/ In (RExc k) q' -> exc = Some k \/ In (RExc k) q) ->
+  sweep_post drain (q :: qs) acc count exc (cons_out q' o).
+Proof.
+  intros P Hl Hc Hs He Hd Hk. destruct o as [k t|t a c e]; simpl in *.
+  - destruct P as (D & Ex & L). split; [exact D|]. split; [apply in_or_app; right; exact Ex|].
+    f_equal. exact L.
+  - destruct P as (L & C & S & E & D & M & K). rewrite !qlen_cons, !qsum_cons, !qexc_cons.
+    split; [f_equal; exact L|]. split; [lia|]. split; [lia|].
+    split; [|split; [intro F; rewrite (D F); apply Hd; exact F|split; [lia|]]].
+    + clear - He E.
+      destruct (is_some e), (is_some exc), (is_some exc1), (existsb rexc q), (existsb rexc q'), (qexc t), (qexc qs);
+        simpl in *; congruence.
+    + intros k [H|H].
+      * destruct (K k (or_introl H)) as [H1|H1].
+        -- destruct (Hk k (or_introl H1)) as [H2|H2]; [left; exact H2|right; apply in_or_app; left; exact H2].
+        -- right. apply in_or_app. right. exact H1.
+      * apply in_app_or in H. destruct H as [H|H].
+        -- destruct (Hk k (or_intror H)) as [H2|H2]; [left; exact H2|right; apply in_or_app; left; exact H2].
+        -- destruct (K k (or_intror H)) as [H1|H1].
+           ++ destruct (Hk k (or_introl H1)) as [H2|H2]; [left; exact H2|right; apply in_or_app; left; exact H2].
+           ++ right. apply in_or_app. right. exact H1.
+Qed.
+
+Lemma sweep_inv (drain : bool) : forall qs mask acc count exc,
+  sweep_post drain qs acc count exc (sweep drain mask qs acc count exc).
+Proof.
+  induction qs as [|q qs IH]; intros mask acc count exc.
+  - simpl. repeat split; auto.
+  - simpl sweep.
+    destruct (match mask with [] => true | b :: _ => b end) eqn:M.
+    + destruct q as [|[v|k] q'].
+      * apply cons_out_post with (acc1 := acc) (count1 := count) (exc1 := exc);
+          [apply IH | simpl length; lia | lia | simpl; lia | reflexivity | intro; reflexivity | tauto].
+      * apply cons_out_post with (acc1 := (acc + v)%Z) (count1 := S count) (exc1 := exc);
+          [apply IH | simpl length; lia | lia | simpl; lia | reflexivity | intro; reflexivity |].
+        intros k [H|H]; [left; exact H|right; right; exact H].
+      * destruct drain.
+        -- apply cons_out_post with (acc1 := acc) (count1 := S count)
+                                     (exc1 := match exc with None => Some k | e => e end);
+             [apply IH | simpl length; lia | lia | simpl; lia | | discriminate |].
+           ++ simpl. rewrite orb_true_r. destruct exc; reflexivity.
+           ++ intros k0 [H|H]; [|right; right; exact H].
+              destruct exc as [e|]; [left; exact H|]. inversion H. right. left. reflexivity.
+        -- simpl. split; [reflexivity|]. split; [left; reflexivity|reflexivity].
+    + apply cons_out_post with (acc1 := acc) (count1 := count) (exc1 := exc);
+        [apply IH | simpl length; lia | lia | simpl; lia | reflexivity | intro; reflexivity | tauto].
+Qed.
+
+(* a pass in which every pending item is visible consumes at least one *)
+Lemma sweep_progress (drain : bool) : forall qs acc count exc qs' acc' count' exc',
+  sweep drain [] qs acc count exc = SCont qs' acc' count' exc' -> 0 < qlen qs -> qlen qs' < qlen qs.
+Proof.
+  induction qs as [|q qs IH]; intros acc count exc qs' acc' count' exc' H P.
+  - unfold qlen in P. simpl in P. lia.
+  - simpl in H. destruct q as [|[v|k] q'].
+    + destruct (sweep drain [] qs acc count exc) as [k0 t|t a c e] eqn:S; simpl in H; [discriminate|].
+      inversion H; subst. rewrite !qlen_cons in *. simpl in *. apply (IH _ _ _ _ _ _ _ S). exact P.
+    + pose proof (sweep_inv drain qs [] (acc + v)%Z (S count) exc) as I.
+      destruct (sweep drain [] qs (acc + v)%Z (S count) exc) as [k0 t|t a c e] eqn:S; simpl in H; [discriminate|].
+      inversion H; subst. simpl in I. rewrite !qlen_cons. simpl. lia.
+    + destruct drain; [|discriminate].
+      pose proof (sweep_inv true qs [] acc (S count) (match exc with None => Some k | e => e end)) as I.
+      destruct (sweep true [] qs acc (S count) (match exc with None => Some k | e => e end)) as [k0 t|t a c e] eqn:S;
+        simpl in H; [discriminate|].
+      inversion H; subst. simpl in I. rewrite !qlen_cons. simpl. lia.
+Qed.
+
+(* results(): whatever the schedule, the answer is decided by what is pending *)
+Lemma loop_spec (drain : bool) (n : nat) : forall fuel masks qs acc count exc,
+  length masks + qlen qs < fuel ->
+  count + qlen qs = n -> (drain = false -> exc = None) ->
+  exists r qs',
+    results_loop drain fuel n masks qs acc count exc = Some (r, qs')
+    /\ length qs' = length qs
+    /\ (is_some exc || qexc qs = false -> r = RVal (acc + qsum qs))
+    /\ (is_some exc || qexc qs = true -> exists k, r = RExc k /\ (exc = Some k \/ In (RExc k) (concat qs)))
+    /\ ((drain = true \/ is_some exc || qexc qs = false) -> concat qs' = []).
+Proof.
+  induction fuel as [|f IH]; intros masks qs acc count exc F C D; [lia|].
+  simpl results_loop. destruct (n <=? count) eqn:Le.
+  - apply Nat.leb_le in Le. assert (Z0 : qlen qs = 0) by lia.
+    pose proof (qlen_zero qs Z0) as E. eexists. exists qs. split; [reflexivity|]. split; [reflexivity|].
+    unfold qexc, qsum. rewrite E. simpl. rewrite orb_false_r, Z.add_0_r.
+    destruct exc as [k|]; simpl; repeat split; auto; try discriminate.
+    intros _. exists k. auto.
+  - apply Nat.leb_gt in Le.
+    pose proof (sweep_inv drain qs (hd [] masks) acc count exc) as I.
+    destruct (sweep drain (hd [] masks) qs acc count exc) as [k t|t a c e] eqn:S; simpl in I.
+    + destruct I as (Dr & Ex & L). eexists. exists t. split; [reflexivity|]. split; [exact L|].
+      assert (Q : qexc qs = true) by (apply (in_exc_true k); exact Ex).
+      rewrite Q, orb_true_r. repeat split; try discriminate.
+      * intros _. exists k. auto.
+      * intros [H|H]; [congruence|discriminate].
+    + destruct I as (L & Cn & Sm & Ee & De & Mo & K).
+      assert (F' : length (tl masks) + qlen t < f).
+      { destruct masks as [|m ms]; simpl in *.
+        - pose proof (sweep_progress drain qs acc count exc t a c e S ltac:(lia)). lia.
+        - lia. }
+      destruct (IH (tl masks) t a c e F' ltac:(lia) (fun H => eq_trans (De H) (D H))) as (r & qs' & R & L' & V & X & Z').
+      exists r, qs'. rewrite R, <- Ee, <- Sm. repeat split; auto; [congruence|].
+      intro H. destruct (X H) as (k & Rk & Pk). exists k. split; [exact Rk|]. apply K. exact Pk.
+Qed.
+
 Section EngineProofs.
   Context {A X : Type}.
-  Variable ev : A -> X -> res.
 
   (* the partition used by the pool loses nothing and keeps the order *)
   Lemma split_concat (cores : nat) (l : list A) : 1 <= cores -> concat (split_procs cores l) = l.
@@ -42,131 +182,56 @@ Section EngineProofs.
     apply firstn_all2.
     pose proof (ceil_div_covers (length (a :: l)) (Nat.min (length (a :: l)) cores)) as C.
     assert (H0 : 1 <= Nat.min (length (a :: l)) cores) by (apply Nat.min_glb; [simpl; lia|exact H]).
-    specialize (C H0).
-    exact C.
+    specialize (C H0). exact C.
   Qed.
 
   (* ---------- serial ---------- *)
-  Lemma serial_spec (l : list A) (x : X) : serial ev l x = spec_sum ev l x.
+  Lemma serial_spec (ev : A -> X -> res) (l : list A) (x : X) : serial ev l x = spec_sum ev l x.
   Proof.
-    unfold spec_sum. induction l as [|a l IH]; [reflexivity|].
-    simpl. unfold raises at 1, val at 1. destruct (ev a x) as [v|]; [|reflexivity].
-    rewrite IH. simpl. destruct (existsb (raises ev x) l); reflexivity.
+    unfold spec_sum, total. induction l as [|a l IH]; [reflexivity|].
+    simpl. unfold val at 1. destruct (ev a x) as [v|k]; [|reflexivity].
+    rewrite IH. destruct (first_exc ev l x); reflexivity.
   Qed.
 
-  (* ---------- measures on the queues ---------- *)
-  Definition rval (r : res) : Z := match r with RVal v => v | RExc => 0%Z end.
-  Definition rexc (r : res) : bool := match r with RExc => true | RVal _ => false end.
-  Definition qlen (qs : list (list res)) : nat := length (concat qs).
-  Definition qsum (qs : list (list res)) : Z := fold_right Z.add 0%Z (map rval (concat qs)).
-  Definition qexc (qs : list (list res)) : bool := existsb rexc (concat qs).
-
-  Lemma qlen_cons q qs : qlen (q :: qs) = length q + qlen qs.
-  Proof. unfold qlen. simpl. apply app_length. Qed.
-  Lemma fold_add_app (a b : list Z) : fold_right Z.add 0%Z (a ++ b) = (fold_right Z.add 0 a + fold_right Z.add 0 b)%Z.
-  Proof. induction a as [|x a IH]; simpl; [reflexivity|]. rewrite IH. lia. Qed.
-  Lemma qsum_cons q qs : qsum (q :: qs) = (fold_right Z.add 0 (map rval q) + qsum qs)%Z.
-  Proof. unfold qsum. simpl. rewrite map_app, fold_add_app. reflexivity. Qed.
-  Lemma qexc_cons q qs : qexc (q :: qs) = existsb rexc q || qexc qs.
-  Proof. unfold qexc. simpl. apply existsb_app. Qed.
-
-  Definition sweep_post (drain : bool) (qs : list (list res)) (acc : Z) (count : nat) (exc : bool) (o : sweep_out) : Prop :=
-    match o with
-    | SCont qs' acc' count' exc' =>
-        length qs' = length qs /\ count' + qlen qs' = count + qlen qs /\ (acc' + qsum qs' = acc + qsum qs)%Z
-        /\ exc' || qexc qs' = exc || qexc qs /\ (drain = false -> exc' = exc) /\ count <= count'
-    | SRaise qs' => drain = false /\ qexc qs = true /\ length qs' = length qs
+  Lemma first_exc_raises (ev : A -> X -> res) (l : list A) (x : X) :
+    match first_exc ev l x with
+    | Some k => existsb (raises ev x) l = true /\ exists a, In a l /\ ev a x = RExc k
+    | None => existsb (raises ev x) l = false
     end.
-
-  Lemma cons_out_post drain q q' qs acc count exc acc1 count1 exc1 o :
-    sweep_post drain qs acc1 count1 exc1 o ->
-    length q = (count1 - count) + length q' -> count <= count1 ->
-    (fold_right Z.add 0 (map rval q) + acc = acc1 + fold_right Z.add 0 (map rval q'))%Z ->
-    exc || existsb rexc q = exc1 || existsb rexc q' -> (drain = false -> exc1 = exc) ->
-    sweep_post drain (q :: qs) acc count exc (cons_out q' o).
   Proof.
-    intros P Hl Hc Hs He Hd. destruct o as [t|t a c e]; simpl in *.
-    - destruct P as (D & Ex & L). split; [exact D|]. split; [rewrite qexc_cons, Ex; apply orb_true_r|].
-      simpl. f_equal. exact L.
-    - destruct P as (L & C & S & E & D & M). rewrite !qlen_cons, !qsum_cons, !qexc_cons.
-      split; [simpl; f_equal; exact L|]. split; [lia|]. split; [lia|].
-      split; [|split; [intro F; rewrite (D F); apply Hd; exact F|lia]].
-      clear - He E.
-      destruct e, exc, exc1, (existsb rexc q), (existsb rexc q'), (qexc t), (qexc qs); simpl in *; congruence.
+    induction l as [|a l IH]; simpl; [reflexivity|].
+    destruct (ev a x) as [v|k] eqn:E.
+    - assert (R : raises ev x a = false) by (unfold raises; rewrite E; reflexivity). rewrite R. simpl.
+      destruct (first_exc ev l x) as [k|]; [|exact IH].
+      destruct IH as [R' (b & Hb & Eb)]. split; [exact R'|]. exists b. auto.
+    - assert (R : raises ev x a = true) by (unfold raises; rewrite E; reflexivity). rewrite R. simpl.
+      split; [reflexivity|]. exists a. auto.
   Qed.
 
-  Lemma sweep_inv (drain : bool) : forall qs mask acc count exc,
-    sweep_post drain qs acc count exc (sweep drain mask qs acc count exc).
+  (* the serial answer is one of the answers allowed for any number of cores *)
+  Lemma spec_sum_ok (ev : A -> X -> res) (l : list A) (x : X) : ok_answer ev l x (spec_sum ev l x).
   Proof.
-    induction qs as [|q qs IH]; intros mask acc count exc.
-    - simpl. repeat split; auto.
-    - simpl sweep.
-      destruct (match mask with [] => true | b :: _ => b end) eqn:M.
-      + destruct q as [|[v|] q'].
-        * apply cons_out_post with (acc1 := acc) (count1 := count) (exc1 := exc);
-            [apply IH | simpl length; lia | lia | simpl; lia | reflexivity | intro; reflexivity].
-        * apply cons_out_post with (acc1 := (acc + v)%Z) (count1 := S count) (exc1 := exc);
-            [apply IH | simpl length; lia | lia | simpl; lia | reflexivity | intro; reflexivity].
-        * destruct drain.
-          -- apply cons_out_post with (acc1 := acc) (count1 := S count) (exc1 := true);
-               [apply IH | simpl length; lia | lia | simpl; lia | simpl; apply orb_true_r | discriminate].
-          -- simpl. split; [reflexivity|]. split; [rewrite qexc_cons; reflexivity|reflexivity].
-      + apply cons_out_post with (acc1 := acc) (count1 := count) (exc1 := exc);
-          [apply IH | simpl length; lia | lia | simpl; lia | reflexivity | intro; reflexivity].
+    unfold ok_answer, spec_sum. pose proof (first_exc_raises ev l x) as H.
+    destruct (first_exc ev l x) as [k|].
+    - destruct H as [R (a & Ha & Ea)]. rewrite R. exists k, a. auto.
+    - rewrite H. reflexivity.
   Qed.
 
-  (* a pass in which every pending item is visible consumes at least one *)
-  Lemma sweep_progress (drain : bool) : forall qs acc count exc qs' acc' count' exc',
-    sweep drain [] qs acc count exc = SCont qs' acc' count' exc' -> 0 < qlen qs -> qlen qs' < qlen qs.
+  (* when all raising analyses raise the same class the answer is determined *)
+  Definition uniform (ev : A -> X -> res) (l : list A) (x : X) : Prop :=
+    forall a b k k', In a l -> In b l -> ev a x = RExc k -> ev b x = RExc k' -> k = k'.
+  Lemma ok_answer_uniform (ev : A -> X -> res) (l : list A) (x : X) (r : res) :
+    uniform ev l x -> ok_answer ev l x r -> r = spec_sum ev l x.
   Proof.
-    induction qs as [|q qs IH]; intros acc count exc qs' acc' count' exc' H P.
-    - unfold qlen in P. simpl in P. lia.
-    - simpl in H. destruct q as [|[v|] q'].
-      + destruct (sweep drain [] qs acc count exc) as [t|t a c e] eqn:S; simpl in H; [discriminate|].
-        inversion H; subst. rewrite !qlen_cons in *. simpl in *. apply (IH _ _ _ _ _ _ _ S). exact P.
-      + pose proof (sweep_inv drain qs [] (acc + v)%Z (S count) exc) as I.
-        destruct (sweep drain [] qs (acc + v)%Z (S count) exc) as [t|t a c e] eqn:S; simpl in H; [discriminate|].
-        inversion H; subst. simpl in I. rewrite !qlen_cons. simpl. lia.
-      + destruct drain; [|discriminate].
-        pose proof (sweep_inv true qs [] acc (S count) true) as I.
-        destruct (sweep true [] qs acc (S count) true) as [t|t a c e] eqn:S; simpl in H; [discriminate|].
-        inversion H; subst. simpl in I. rewrite !qlen_cons. simpl. lia.
-  Qed.
-
-  Lemma qlen_zero (qs : list (list res)) : qlen qs = 0 -> concat qs = [].
-  Proof. unfold qlen. intro H. apply length_zero_iff_nil. exact H. Qed.
-
-  (* results(): whatever the schedule, the answer is decided by what is pending *)
-  Lemma loop_spec (drain : bool) (n : nat) : forall fuel masks qs acc count exc,
-    length masks + qlen qs < fuel ->
-    count + qlen qs = n -> (drain = false -> exc = false) ->
-    exists qs',
-      results_loop drain fuel n masks qs acc count exc
-      = Some (if exc || qexc qs then RExc else RVal (acc + qsum qs), qs')
-      /\ length qs' = length qs
-      /\ ((drain = true \/ exc || qexc qs = false) -> concat qs' = []).
-  Proof.
-    induction fuel as [|f IH]; intros masks qs acc count exc F C D; [lia|].
-    simpl results_loop. destruct (n <=? count) eqn:Le.
-    - apply Nat.leb_le in Le. assert (Z0 : qlen qs = 0) by lia.
-      pose proof (qlen_zero qs Z0) as E. exists qs.
-      unfold qexc, qsum. rewrite E. simpl. rewrite orb_false_r, Z.add_0_r. repeat split; auto.
-    - apply Nat.leb_gt in Le.
-      pose proof (sweep_inv drain qs (hd [] masks) acc count exc) as I.
-      destruct (sweep drain (hd [] masks) qs acc count exc) as [t|t a c e] eqn:S; simpl in I.
-      + destruct I as (Dr & Ex & L). exists t. rewrite Ex, orb_true_r. repeat split; auto.
-        intros [H|H]; [congruence|discriminate].
-      + destruct I as (L & Cn & Sm & Ee & De & Mo).
-        assert (F' : length (tl masks) + qlen t < f).
-        { destruct masks as [|m ms]; simpl in *.
-          - pose proof (sweep_progress drain qs acc count exc t a c e S ltac:(lia)). lia.
-          - lia. }
-        destruct (IH (tl masks) t a c e F' ltac:(lia) (fun H => eq_trans (De H) (D H))) as (qs' & R & L' & Z').
-        exists qs'. rewrite R, Ee, Sm. repeat split; auto; [congruence|]. rewrite <- Ee. exact Z'.
+    intros U H. unfold ok_answer in H. unfold spec_sum. pose proof (first_exc_raises ev l x) as F.
+    destruct (first_exc ev l x) as [k|].
+    - destruct F as [R (b & Hb & Eb)]. rewrite R in H. destruct H as (k' & a & Ha & Ea & Er).
+      rewrite Er. f_equal. apply (U a b k' k Ha Hb Ea Eb).
+    - rewrite F in H. exact H.
   Qed.
 
   (* ---------- enqueue on a clean pool ---------- *)
-  Lemma enqueue_clean (x : X) : forall procs qs,
+  Lemma enqueue_clean (ev : A -> X -> res) (x : X) : forall procs qs,
     concat qs = [] -> length qs = length procs ->
     concat (enqueue ev procs x qs) = map (fun a => ev a x) (concat procs)
     /\ length (enqueue ev procs x qs) = length procs.
@@ -176,151 +241,236 @@ Section EngineProofs.
     destruct (IH qs Eqs ltac:(lia)) as [C Ln]. rewrite C, map_app. simpl. split; [reflexivity|lia].
   Qed.
 
-  Lemma sum_vals (x : X) (l : list A) :
-    fold_right Z.add 0%Z (map rval (map (fun a => ev a x) l)) = fold_right Z.add 0%Z (map (val ev x) l).
-  Proof. rewrite map_map. reflexivity. Qed.
-  Lemma exc_vals (x : X) (l : list A) : existsb rexc (map (fun a => ev a x) l) = existsb (raises ev x) l.
+  Lemma sum_vals (ev : A -> X -> res) (x : X) (l : list A) :
+    fold_right Z.add 0%Z (map rval (map (fun a => ev a x) l)) = total ev l x.
+  Proof. unfold total. rewrite map_map. reflexivity. Qed.
+  Lemma exc_vals (ev : A -> X -> res) (x : X) (l : list A) : existsb rexc (map (fun a => ev a x) l) = existsb (raises ev x) l.
   Proof. induction l as [|a l IH]; simpl; [reflexivity|]. rewrite IH. unfold raises, rexc. destruct (ev a x); reflexivity. Qed.
 
-  (* one evaluation on a pool with nothing pending: the sum, for every schedule *)
-  Theorem pool_call_clean (drain : bool) (l : list A) (procs : list (list A)) (x : X) (masks : list (list bool))
-          (qs : list (list res)) :
+  (* one call (evaluation or map) on a pool with nothing pending: the sum, or the exception of one of
+     the raising analyses, for every schedule; the repaired results() leaves nothing behind *)
+  Theorem pool_call_clean (ev : A -> X -> res) (drain : bool) (l : list A) (procs : list (list A)) (x : X)
+          (masks : list (list bool)) (qs : list (list res)) :
     concat procs = l -> concat qs = [] -> length qs = length procs ->
-    exists qs',
-      pool_call ev drain (length l) procs x masks qs = Some (spec_sum ev l x, qs')
+    exists r qs',
+      pool_call ev drain (length l) procs x masks qs = Some (r, qs')
+      /\ ok_answer ev l x r
       /\ length qs' = length procs
       /\ ((drain = true \/ existsb (raises ev x) l = false) -> concat qs' = []).
   Proof.
     intros P E L. unfold pool_call.
-    destruct (enqueue_clean x procs qs E L) as [C Ln].
+    destruct (enqueue_clean ev x procs qs E L) as [C Ln].
     set (qs1 := enqueue ev procs x qs) in *.
     assert (Q : qlen qs1 = length l) by (unfold qlen; rewrite C, map_length, P; reflexivity).
-    destruct (loop_spec drain (length l) (call_fuel (length l) masks qs1) masks qs1 0%Z 0 false) as (qs' & R & L' & Z').
+    destruct (loop_spec drain (length l) (call_fuel (length l) masks qs1) masks qs1 0%Z 0 None)
+      as (r & qs' & R & L' & V & Xx & Z').
     - unfold call_fuel. fold (qlen qs1). lia.
     - lia.
     - reflexivity.
-    - exists qs'. rewrite R. simpl. unfold spec_sum, qexc, qsum. rewrite C, P, sum_vals, exc_vals.
-      repeat split; [congruence|]. intro H. apply Z'. unfold qexc. rewrite C, P, exc_vals. simpl. exact H.
+    - exists r, qs'. rewrite R. split; [reflexivity|].
+      assert (Qe : qexc qs1 = existsb (raises ev x) l) by (unfold qexc; rewrite C, P, exc_vals; reflexivity).
+      assert (Qs : qsum qs1 = total ev l x) by (unfold qsum; rewrite C, P, sum_vals; reflexivity).
+      simpl in V, Xx, Z'. rewrite Qe in V, Xx, Z'. rewrite Qs in V.
+      split; [|split; [congruence|exact Z']].
+      unfold ok_answer. destruct (existsb (raises ev x) l).
+      + destruct (Xx eq_refl) as (k & Rk & [Pk|Pk]); [discriminate|].
+        rewrite C, P in Pk. apply in_map_iff in Pk. destruct Pk as (a & Ea & Ha). exists k, a. auto.
+      + rewrite (V eq_refl). reflexivity.
   Qed.
 
   (* ---------- histories ---------- *)
+  Variables ev vis : A -> X -> res.
+
   Definition clean (l : list A) (s : st (A := A)) : Prop :=
-    concat (s_qs s) = [] /\ length (s_qs s) = length (s_procs s) /\ (1 < s_cores s -> concat (s_procs s) = l).
+    concat (s_qs s) = [] /\ length (s_qs s) = length (s_procs s)
+    /\ (s_pool s = true -> concat (s_procs s) = l) /\ (1 < s_cores s -> s_pool s = true).
 
   Lemma clean_init (l : list A) : clean l st_init.
-  Proof. unfold clean. simpl. repeat split; auto. lia. Qed.
+  Proof. unfold clean. simpl. repeat split; auto; [discriminate|lia]. Qed.
 
   Lemma concat_nils {B C} (l : list C) : concat (map (fun _ => @nil B) l) = [].
   Proof. induction l; simpl; auto. Qed.
 
-  Lemma clean_set_cores (l : list A) (k : nat) : clean l (set_cores l k).
+  Lemma clean_set_cores_new (l : list A) (s : st) (k : nat) : 1 < k -> clean l (set_cores l s k).
   Proof.
-    unfold set_cores, clean. destruct (1 <? k) eqn:K; simpl.
-    - apply Nat.ltb_lt in K. repeat split.
-      + apply concat_nils.
-      + apply map_length.
-      + intros _. apply split_concat. lia.
-    - apply Nat.ltb_ge in K. repeat split; auto. lia.
+    intro K. unfold set_cores, clean. apply Nat.ltb_lt in K. rewrite K. simpl. apply Nat.ltb_lt in K. repeat split; auto.
+    - apply concat_nils.
+    - apply map_length.
+    - intros _. apply split_concat. lia.
   Qed.
 
-  Lemma set_cores_cores (l : list A) (k : nat) : s_cores (set_cores l k) = k.
-  Proof. unfold set_cores. destruct (1 <? k); reflexivity. Qed.
+  Lemma clean_set_cores_keep (l : list A) (s : st) (k : nat) : k <= 1 -> clean l s -> clean l (set_cores l s k).
+  Proof.
+    intros K (E & L & P & _). unfold set_cores, clean. apply Nat.ltb_ge in K. rewrite K. simpl.
+    apply Nat.ltb_ge in K. repeat split; auto. lia.
+  Qed.
 
-  (* what is guaranteed about each answer: None = nothing (an earlier evaluation of this pool raised
-     and the code does not drain) *)
-  Fixpoint guarded (drain : bool) (l : list A) (cores : nat) (tainted : bool) (ops : list (op (X := X)))
-    : list (option res) :=
+  (* the calls of a history and what is asked of their outcomes *)
+  Definition is_call (o : op (X := X)) : bool := match o with OCores _ => false | _ => true end.
+  Definition calls (ops : list (op (X := X))) : list (op (X := X)) := filter is_call ops.
+  Definition out_ok (l : list A) (o : op (X := X)) (u : out (A := A)) : Prop :=
+    match o, u with
+    | OEval x _, OutAns (Some r) => ok_answer ev l x r
+    | OMap x _, OutMap (Some r) _ => ok_answer vis l x r
+    | _, _ => False
+    end.
+  (* the flag says that nothing is guaranteed: an earlier call of this pool raised and the code does
+     not drain (historical snapshot) *)
+  Definition meets (l : list A) (g : bool * op (X := X)) (u : out (A := A)) : Prop :=
+    if fst g then True else out_ok l (snd g) u.
+
+  Fixpoint guarded (drain : bool) (l : list A) (cores : nat) (pool tainted : bool) (ops : list (op (X := X)))
+    : list (bool * op (X := X)) :=
     match ops with
     | [] => []
-    | OCores k :: r => guarded drain l k false r
-    | OEval x _ :: r =>
-        (if tainted then None else Some (spec_sum ev l x))
-          :: guarded drain l cores (tainted || (negb drain && (1 <? cores) && existsb (raises ev x) l)) r
+    | OCores k :: r => if 1 <? k then guarded drain l k true false r else guarded drain l k pool tainted r
+    | OEval x m :: r =>
+        (tainted && (1 <? cores), OEval x m)
+          :: guarded drain l cores pool (tainted || (negb drain && (1 <? cores) && existsb (raises ev x) l)) r
+    | OMap x m :: r =>
+        (tainted && pool, OMap x m)
+          :: guarded drain l cores pool (tainted || (negb drain && pool && existsb (raises vis x) l)) r
     end.
-  Definition meets (g : option res) (a : option res) : Prop :=
-    match g with Some r => a = Some r | None => True end.
 
-  Lemma run_guarded (drain : bool) (l : list A) : forall ops s tainted,
-    (tainted = false -> clean l s) ->
-    Forall2 meets (guarded drain l (s_cores s) tainted ops) (snd (run ev drain l s ops)).
+  Lemma run_guarded (drain fm : bool) (l : list A) : forall ops s tainted,
+    (tainted = false -> clean l s) -> (1 < s_cores s -> s_pool s = true) ->
+    Forall2 (meets l) (guarded drain l (s_cores s) (s_pool s) tainted ops) (snd (run ev vis drain fm l s ops)).
   Proof.
-    induction ops as [|o ops IH]; intros s tainted Hc; [constructor|].
-    destruct o as [x masks|k].
-    - simpl guarded. simpl run. unfold step.
+    induction ops as [|o ops IH]; intros s tainted Hc Hp; [constructor|].
+    destruct o as [x masks|x masks|k].
+    - (* evaluation *)
+      simpl guarded. simpl run. unfold step.
       destruct (1 <? s_cores s) eqn:K.
       + destruct tainted.
-        * (* nothing is known about the state any more *)
-          destruct (pool_call ev drain (length l) (s_procs s) x masks (s_qs s)) as [[r qs']|] eqn:P.
-          -- specialize (IH (mkSt (s_cores s) (s_procs s) qs') true ltac:(discriminate)).
-             destruct (run ev drain l (mkSt (s_cores s) (s_procs s) qs') ops) as [s2 a2] eqn:R.
+        * destruct (pool_call ev drain (length l) (s_procs s) x masks (s_qs s)) as [[r qs']|] eqn:P.
+          -- specialize (IH (mkSt (s_cores s) (s_pool s) (s_procs s) qs') true ltac:(discriminate) Hp).
+             destruct (run ev vis drain fm l (mkSt (s_cores s) (s_pool s) (s_procs s) qs') ops) as [s2 a2] eqn:R.
              simpl in *. constructor; [exact I|exact IH].
-          -- specialize (IH s true ltac:(discriminate)).
-             destruct (run ev drain l s ops) as [s2 a2] eqn:R. simpl in *. constructor; [exact I|exact IH].
-        * destruct (Hc eq_refl) as (E & L & Pc). apply Nat.ltb_lt in K.
-          destruct (pool_call_clean drain l (s_procs s) x masks (s_qs s) (Pc K) E L) as (qs' & P & L' & Z').
+          -- specialize (IH s true ltac:(discriminate) Hp).
+             destruct (run ev vis drain fm l s ops) as [s2 a2] eqn:R. simpl in *. constructor; [exact I|exact IH].
+        * destruct (Hc eq_refl) as (E & L & Pc & Pp). apply Nat.ltb_lt in K.
+          destruct (pool_call_clean ev drain l (s_procs s) x masks (s_qs s) (Pc (Pp K)) E L) as (r & qs' & P & Ok & L' & Z').
           rewrite P.
           set (t := false || (negb drain && true && existsb (raises ev x) l)).
-          assert (Hc' : t = false -> clean l (mkSt (s_cores s) (s_procs s) qs')).
+          assert (Hc' : t = false -> clean l (mkSt (s_cores s) (s_pool s) (s_procs s) qs')).
           { intro T. unfold clean. simpl. repeat split; auto. apply Z'.
             unfold t in T. simpl in T. destruct drain; [left; reflexivity|right; exact T]. }
-          specialize (IH (mkSt (s_cores s) (s_procs s) qs') t Hc').
-          destruct (run ev drain l (mkSt (s_cores s) (s_procs s) qs') ops) as [s2 a2] eqn:R.
-          simpl in *. constructor; [reflexivity|exact IH].
+          specialize (IH (mkSt (s_cores s) (s_pool s) (s_procs s) qs') t Hc' Hp).
+          destruct (run ev vis drain fm l (mkSt (s_cores s) (s_pool s) (s_procs s) qs') ops) as [s2 a2] eqn:R.
+          simpl in *. constructor; [exact Ok|exact IH].
       + (* serial *)
         assert (T : tainted || (negb drain && false && existsb (raises ev x) l) = tainted).
         { rewrite andb_false_r. simpl. apply orb_false_r. }
-        rewrite T. specialize (IH s tainted Hc).
-        destruct (run ev drain l s ops) as [s2 a2] eqn:R. simpl in *. constructor; [|exact IH].
-        destruct tainted; simpl; [exact I|]. rewrite serial_spec. reflexivity.
-    - simpl guarded. simpl run.
-      specialize (IH (set_cores l k) false (fun _ => clean_set_cores l k)). rewrite set_cores_cores in IH.
-      destruct (run ev drain l (set_cores l k) ops) as [s2 a2] eqn:R. simpl in *. exact IH.
+        rewrite T. specialize (IH s tainted Hc Hp).
+        destruct (run ev vis drain fm l s ops) as [s2 a2] eqn:R. simpl in *. constructor; [|exact IH].
+        unfold meets. simpl. rewrite andb_false_r. simpl. rewrite serial_spec. apply spec_sum_ok.
+    - (* visualize *)
+      simpl guarded. simpl run. unfold step.
+      destruct (s_pool s) eqn:Pl.
+      + destruct tainted.
+        * destruct (pool_call vis drain (length l) (s_procs s) x masks (s_qs s)) as [[r qs']|] eqn:P.
+          -- specialize (IH (mkSt (s_cores s) true (s_procs s) qs') true ltac:(discriminate) (fun _ => eq_refl)).
+             simpl in IH.
+             destruct (run ev vis drain fm l (mkSt (s_cores s) true (s_procs s) qs') ops) as [s2 a2] eqn:R.
+             simpl in *. constructor; [exact I|exact IH].
+          -- specialize (IH s true ltac:(discriminate) (fun _ => Pl)). rewrite Pl in IH.
+             destruct (run ev vis drain fm l s ops) as [s2 a2] eqn:R. simpl in *. constructor; [exact I|exact IH].
+        * destruct (Hc eq_refl) as (E & L & Pc & Pp).
+          destruct (pool_call_clean vis drain l (s_procs s) x masks (s_qs s) (Pc Pl) E L) as (r & qs' & P & Ok & L' & Z').
+          rewrite P.
+          set (t := false || (negb drain && true && existsb (raises vis x) l)).
+          assert (Hc' : t = false -> clean l (mkSt (s_cores s) true (s_procs s) qs')).
+          { intro T. unfold clean. simpl. repeat split; auto. apply Z'.
+            unfold t in T. simpl in T. destruct drain; [left; reflexivity|right; exact T]. }
+          specialize (IH (mkSt (s_cores s) true (s_procs s) qs') t Hc' (fun _ => eq_refl)). simpl in IH.
+          destruct (run ev vis drain fm l (mkSt (s_cores s) true (s_procs s) qs') ops) as [s2 a2] eqn:R.
+          simpl in *. constructor; [exact Ok|exact IH].
+      + assert (T : tainted || (negb drain && false && existsb (raises vis x) l) = tainted).
+        { rewrite andb_false_r. simpl. apply orb_false_r. }
+        rewrite T. specialize (IH s tainted Hc (fun H => eq_trans Pl (Hp H))). rewrite Pl in IH.
+        destruct (run ev vis drain fm l s ops) as [s2 a2] eqn:R. simpl in *. constructor; [|exact IH].
+        unfold meets. simpl. rewrite andb_false_r. simpl. rewrite serial_spec. apply spec_sum_ok.
+    - (* change of cores *)
+      simpl guarded. simpl run. destruct (1 <? k) eqn:K.
+      + apply Nat.ltb_lt in K.
+        assert (Sc : s_cores (set_cores l s k) = k /\ s_pool (set_cores l s k) = true).
+        { unfold set_cores. apply Nat.ltb_lt in K. rewrite K. auto. }
+        destruct Sc as [Sc Sp].
+        specialize (IH (set_cores l s k) false (fun _ => clean_set_cores_new l s k K) (fun _ => Sp)).
+        rewrite Sc, Sp in IH.
+        destruct (run ev vis drain fm l (set_cores l s k) ops) as [s2 a2] eqn:R. simpl in *. exact IH.
+      + apply Nat.ltb_ge in K.
+        assert (Sc : s_cores (set_cores l s k) = k /\ s_pool (set_cores l s k) = s_pool s).
+        { unfold set_cores. apply Nat.ltb_ge in K. rewrite K. auto. }
+        destruct Sc as [Sc Sp].
+        specialize (IH (set_cores l s k) tainted (fun T => clean_set_cores_keep l s k K (Hc T))).
+        rewrite Sc, Sp in IH. specialize (IH ltac:(lia)).
+        destruct (run ev vis drain fm l (set_cores l s k) ops) as [s2 a2] eqn:R. simpl in *. exact IH.
   Qed.
 
-  (* the evaluated instances of a history, in order *)
-  Fixpoint evals (ops : list (op (X := X))) : list X :=
-    match ops with [] => [] | OEval x _ :: r => x :: evals r | OCores _ :: r => evals r end.
-
-  Lemma guarded_drain (l : list A) : forall ops cores,
-    guarded true l cores false ops = map (fun x => Some (spec_sum ev l x)) (evals ops).
-  Proof. induction ops as [|[x m|k] ops IH]; intro cores; simpl; auto. rewrite IH. reflexivity. Qed.
-
-  Lemma meets_all_some (g : list res) (a : list (option res)) : Forall2 meets (map Some g) a -> a = map Some g.
+  Lemma guarded_drain (l : list A) : forall ops cores pool,
+    guarded true l cores pool false ops = map (fun o => (false, o)) (calls ops).
   Proof.
-    revert a. induction g as [|r g IH]; intros a H; inversion H; subst; [reflexivity|].
-    simpl in H2. subst. simpl. f_equal. apply IH. assumption.
+    induction ops as [|[x m|x m|k] ops IH]; intros cores pool; simpl; auto.
+    - rewrite IH. reflexivity.
+    - rewrite IH. reflexivity.
+    - destruct (1 <? k); apply IH.
   Qed.
 
-  (* repaired code: every answer of every history is the sum on its own instance *)
-  Theorem history_free_fixed (l : list A) (ops : list (op (X := X))) :
-    snd (run ev true l st_init ops) = map (fun x => Some (spec_sum ev l x)) (evals ops).
+  (* /repo as it stands: every outcome of every history is right *)
+  Theorem history_free_now (fm : bool) (l : list A) (ops : list (op (X := X))) :
+    Forall2 (out_ok l) (calls ops) (snd (run ev vis true fm l st_init ops)).
   Proof.
-    pose proof (run_guarded true l ops st_init false (fun _ => clean_init l)) as H.
-    simpl s_cores in H. rewrite guarded_drain in H. rewrite <- map_map in H.
-    rewrite (meets_all_some _ _ H), map_map. reflexivity.
+    pose proof (run_guarded true fm l ops st_init false (fun _ => clean_init l) ltac:(simpl; lia)) as H.
+    simpl s_cores in H. simpl s_pool in H. rewrite guarded_drain in H.
+    remember (calls ops) as cs. remember (snd (run ev vis true fm l st_init ops)) as us. clear - H.
+    revert us H. induction cs as [|c cs IH]; intros us H; inversion H; subst; constructor; auto.
   Qed.
 
-  (* hence independent of cores, schedules and earlier evaluations *)
-  Theorem cores_independent_fixed (l : list A) (ops ops' : list (op (X := X))) :
-    evals ops = evals ops' -> snd (run ev true l st_init ops) = snd (run ev true l st_init ops').
-  Proof. intro H. rewrite !history_free_fixed, H. reflexivity. Qed.
+  (* historical snapshot: the same for every call not preceded by a raising call of the same pool *)
+  Theorem history_free_partial (drain fm : bool) (l : list A) (ops : list (op (X := X))) :
+    Forall2 (meets l) (guarded drain l 1 false false ops) (snd (run ev vis drain fm l st_init ops)).
+  Proof. exact (run_guarded drain fm l ops st_init false (fun _ => clean_init l) ltac:(simpl; lia)). Qed.
 
-  (* pinned code: the same for every answer not preceded by a raising evaluation of the same pool *)
-  Theorem history_free_partial (drain : bool) (l : list A) (ops : list (op (X := X))) :
-    Forall2 meets (guarded drain l 1 false ops) (snd (run ev drain l st_init ops)).
-  Proof. exact (run_guarded drain l ops st_init false (fun _ => clean_init l)). Qed.
+  (* answers of a history, and what they must be when each call's raising analyses agree on the class *)
+  Definition out_ans (u : out (A := A)) : option res := match u with OutAns r => r | OutMap r _ => r end.
+  Definition call_spec (l : list A) (o : op (X := X)) : option res :=
+    match o with
+    | OEval x _ => Some (spec_sum ev l x)
+    | OMap x _ => Some (spec_sum vis l x)
+    | OCores _ => None
+    end.
+  Definition call_uniform (l : list A) (o : op (X := X)) : Prop :=
+    match o with OEval x _ => uniform ev l x | OMap x _ => uniform vis l x | OCores _ => True end.
 
-  (* serial evaluation never depends on history *)
-  Theorem serial_history (drain : bool) (l : list A) (ops : list (op (X := X))) (s : st (A := A)) :
-    (forall k, In (OCores k) ops -> k <= 1) -> s_cores s <= 1 ->
-    snd (run ev drain l s ops) = map (fun x => Some (spec_sum ev l x)) (evals ops).
+  Theorem history_answers_now (fm : bool) (l : list A) (ops : list (op (X := X))) :
+    Forall (call_uniform l) ops ->
+    map out_ans (snd (run ev vis true fm l st_init ops)) = map (call_spec l) (calls ops).
   Proof.
-    revert s. induction ops as [|[x m|k] ops IH]; intros s Hk Hs; [reflexivity| |].
-    - simpl. destruct (1 <? s_cores s) eqn:K; [apply Nat.ltb_lt in K; lia|].
-      specialize (IH s (fun k H => Hk k (or_intror H)) Hs).
-      destruct (run ev drain l s ops) as [s2 a2]. simpl in *. rewrite serial_spec, IH. reflexivity.
-    - simpl. assert (K : k <= 1) by (apply Hk; left; reflexivity).
-      specialize (IH (set_cores l k) (fun k H => Hk k (or_intror H))). rewrite set_cores_cores in IH.
-      specialize (IH K). destruct (run ev drain l (set_cores l k) ops) as [s2 a2]. simpl in *. exact IH.
+    intro U. pose proof (history_free_now fm l ops) as H.
+    assert (Uc : Forall (call_uniform l) (calls ops)).
+    { apply Forall_forall. intros o Ho. apply filter_In in Ho. rewrite Forall_forall in U. apply U. tauto. }
+    remember (calls ops) as cs. remember (snd (run ev vis true fm l st_init ops)) as us. clear - H Uc.
+    revert us H. induction cs as [|c cs IH]; intros us H; inversion H; subst; [reflexivity|].
+    inversion Uc; subst. simpl. f_equal; [|apply IH; assumption].
+    destruct c as [x m|x m|k]; destruct y as [[r|]|[r|] w]; simpl in *; try contradiction.
+    - f_equal. apply ok_answer_uniform; assumption.
+    - f_equal. apply ok_answer_uniform; assumption.
+  Qed.
+
+  (* hence independent of cores, schedules and earlier calls: two histories making the same calls *)
+  Definition erase (o : op (X := X)) : op (X := X) :=
+    match o with OEval x _ => OEval x [] | OMap x _ => OMap x [] | OCores k => OCores 0 end.
+  Lemma call_spec_erase (l : list A) (o : op (X := X)) : call_spec l (erase o) = call_spec l o.
+  Proof. destruct o; reflexivity. Qed.
+
+  Theorem cores_independent_now (fm fm' : bool) (l : list A) (ops ops' : list (op (X := X))) :
+    Forall (call_uniform l) ops -> Forall (call_uniform l) ops' ->
+    map erase (calls ops) = map erase (calls ops') ->
+    map out_ans (snd (run ev vis true fm l st_init ops)) = map out_ans (snd (run ev vis true fm' l st_init ops')).
+  Proof.
+    intros U U' E. rewrite (history_answers_now fm l ops U), (history_answers_now fm' l ops' U').
+    rewrite <- (map_ext _ _ (call_spec_erase l)), <- (map_ext _ _ (call_spec_erase l)) at 1.
+    rewrite <- !map_map, E. reflexivity.
   Qed.
 End EngineProofs.
